@@ -171,8 +171,9 @@ Print Assumptions open_swarm_last_events_truthful.
    reader of the conn table at any moment ----
    [trun cap tinit ls = Some t]: ls is a schedule of the stream-level LTS: every step of the swarm-level LTS
    (hence of the emitter LTS), interleaved arbitrarily with, per conn: AcceptStream returning an inbound stream
-   (only while the loop spawned by c.start() runs; takes a ref), the stream goroutine finishing addStream and
-   releasing its ref, the stream handler being called; and ConnsToPeer-style reads of the conn table.
+   (only while the loop spawned by c.start() runs; takes a ref), the stream goroutine finishing addStream (the
+   registered stream keeps a ref until it is closed / reset; doClose resets them all before it spawns the
+   notification goroutine), the stream handler being called; and ConnsToPeer-style reads of the conn table.
    Swarm.Close's refs.Wait passes only when the conns' AND the streams' refs are all released.
    [tobs ls]: what the observer sees, most recent first; [TV v] are the swarm-level observations of SpecSw.v. *)
 
@@ -214,7 +215,7 @@ Qed.
 Print Assumptions nothing_delivered_after_swarm_close_returned.
 
 (* Swarm.close calls connectionEventsEmitter.Close only after refs.Wait: whenever the emitter's Close has been
-   entered, every ref of Swarm.refs - two per admitted conn, one per stream in addStream - has been released *)
+   entered, every ref of Swarm.refs - two per admitted conn, one per stream in addStream, one per open stream - has been released *)
 Theorem emitter_closed_only_after_refs_released : forall cap ls t,
   trun cap tinit ls = Some t -> close_pc (base (sw t)) <> C0 -> refs (sw t) = 0 /\ t_refs t = 0.
 Proof. exact emitter_close_after_refs. Qed.
@@ -340,7 +341,8 @@ Example stream_lifecycle_reachable :
   exists t, trun 32 tinit (st_started ++ [TStreamIn 0; TListed 0 true; TStreamAdded 0 true; THandle 0] ++
                            map TX [XS (SAddRet 0 true); XS SCloseCall; XS SNilBegin; XB (Unreg 0); XS SNilEnd; XS (SDBegin 0);
                                    XS (SDSkip 0)] ++ [TListed 0 false] ++
-                           map TX [XS (STCloseB 0); XS (STCloseE 0); XS (SDSpawn 0); XB (RemCall 0); XB (RChk 0); XB (REnq 0);
+                           map TX [XS (STCloseB 0); XS (STCloseE 0)] ++ [TStreamClosed 0] ++
+                           map TX [XS (SDSpawn 0); XB (RemCall 0); XB (RChk 0); XB (REnq 0);
                                    XB (RLock 0); XB (DiscB 0); XB (DiscE 0); XB (RFin 0); XB (RemRet 0); XS (SGDone 0);
                                    XS (SLoopEnd 0); XS (SLoopDone 0); XS SWaited; XB CloseCall]) = Some t
             /\ refs (sw t) = 0 /\ t_refs t = 0 /\ close_pc (base (sw t)) <> C0.
@@ -354,6 +356,11 @@ Example swarm_close_blocks_on_stream_in_addstream :
                  map TX [XS SCloseCall; XS SNilBegin; XB (Unreg 0); XS SNilEnd; XS (SDBegin 0); XS (SDSkip 0); XS (STCloseB 0);
                          XS (STCloseE 0); XS (SDSpawn 0); XB (RemCall 0); XB (RChk 0); XB (REnq 0); XB (RLock 0); XB (DiscB 0);
                          XB (DiscE 0); XB (RFin 0); XB (RemRet 0); XS (SGDone 0); XS (SLoopEnd 0); XS (SLoopDone 0); XS SWaited]) = None.
+Proof. vm_compute. reflexivity. Qed.
+(* doClose resets the conn's open streams before it spawns the notification goroutine *)
+Example doclose_resets_streams_before_notifying :
+  trun 32 tinit (st_started ++ [TStreamIn 0; TStreamAdded 0 true] ++
+                 map TX [XS (SCloseReq 0); XS (SDBegin 0); XB (Unreg 0); XS (STCloseB 0); XS (STCloseE 0); XS (SDSpawn 0)]) = None.
 Proof. vm_compute. reflexivity. Qed.
 (* ... and a stream whose addStream comes after doClose nil-ed the stream table is dropped, never handled *)
 Example late_stream_is_dropped :
